@@ -552,6 +552,7 @@ func leaves(fl *Flow, v ssa.Value, at ssa.Instruction) []Leaf {
 	var out []Leaf
 	seen := map[*ssa.Phi]bool{}
 	seenAlloc := map[*ssa.Alloc]bool{}
+	seenField := map[fieldOfAlloc]bool{}
 	var rec func(v ssa.Value, facts FactSet)
 	rec = func(v ssa.Value, facts FactSet) {
 		if ph, ok := v.(*ssa.Phi); ok {
@@ -589,6 +590,57 @@ func leaves(fl *Flow, v ssa.Value, at ssa.Instruction) []Leaf {
 							n++
 							rec(st.Val, fl.At(st))
 						}
+					}
+					if n > 0 {
+						return
+					}
+				}
+			}
+		}
+		// load of a field of a local struct variable (`var ev evidence; ev = evidence{view: v}; ev.prefer(w); return ev.view`):
+		// every value stored into that field, here or by a callee of the module that is handed the variable's address
+		if u, ok := v.(*ssa.UnOp); ok && u.Op == token.MUL {
+			if fa, ok := u.X.(*ssa.FieldAddr); ok {
+				if a, ok := fa.X.(*ssa.Alloc); ok && !seenField[fieldOfAlloc{a, fa.Field}] {
+					if defs, ok := localFieldDefs(fl, a, fa.Field, 0); ok && len(defs) > 0 {
+						seenField[fieldOfAlloc{a, fa.Field}] = true
+						for _, d := range defs {
+							m := d.Facts.clone()
+							if m == nil {
+								m = FactSet{}
+							}
+							rec(d.Val, m)
+						}
+						return
+					}
+				}
+			}
+		}
+		// element selected by an index variable that was set on the way (`found := -1; for i := range xs { if ok(xs[i])
+		// { found = i; break } }; if found < 0 { return }; return xs[found]`): the element at each value the index
+		// can have, under the facts of the edge that delivers that value; a sentinel excluded by what is known at
+		// the use is not an alternative. Loop induction variables are left alone.
+		if u, ok := v.(*ssa.UnOp); ok && u.Op == token.MUL {
+			if ia, ok := u.X.(*ssa.IndexAddr); ok {
+				if ph, ok := ia.Index.(*ssa.Phi); ok && !seen[ph] && !isLoopHeaderPhi(ph) {
+					seen[ph] = true
+					pk := fl.K.Key(ph)
+					base := fl.K.Key(ia.X)
+					n := 0
+					for i, e := range ph.Edges {
+						pred := ph.Block().Preds[i]
+						if !fl.Reachable(pred) {
+							continue
+						}
+						if cst, isC := e.(*ssa.Const); isC && cst.Value != nil && cst.Int64() < 0 && hasCmp(facts, "<=", is("c:0"), is(pk)) {
+							continue
+						}
+						m := fl.AtEdge(pred, ph.Block()).clone()
+						for f := range facts {
+							m[f] = true
+						}
+						out = append(out, Leaf{Val: v, Facts: m, Key: base + "[" + fl.K.Key(e) + "]"})
+						n++
 					}
 					if n > 0 {
 						return
@@ -641,6 +693,163 @@ func leaves(fl *Flow, v ssa.Value, at ssa.Instruction) []Leaf {
 }
 
 var leafDepth int
+
+// isLoopHeaderPhi: one of the phi's incoming edges is a back edge (its block dominates the predecessor).
+func isLoopHeaderPhi(ph *ssa.Phi) bool {
+	for _, pred := range ph.Block().Preds {
+		if ph.Block().Dominates(pred) {
+			return true
+		}
+	}
+	return false
+}
+
+type fieldOfAlloc struct {
+	a *ssa.Alloc
+	f int
+}
+
+// localFieldDefs: the values that can be in field #field of the local struct variable a of fl.Fn,
+// flow-insensitively: stores to &a.field in the function, whole-struct assignments from another local
+// (composite literals), stores made by callees of the module that receive &a (pointer-receiver helpers:
+// a stored parameter is the caller's argument, under the facts at the call), and the zero value.
+// ok=false when the variable's address goes anywhere else.
+func localFieldDefs(fl *Flow, a *ssa.Alloc, field int, depth int) ([]Leaf, bool) {
+	st, isStruct := a.Type().Underlying().(*types.Pointer).Elem().Underlying().(*types.Struct)
+	if !isStruct || field >= st.NumFields() || depth > 2 || a.Referrers() == nil {
+		return nil, false
+	}
+	var out []Leaf
+	whole := false
+	for _, r := range *a.Referrers() {
+		switch x := r.(type) {
+		case *ssa.DebugRef:
+		case *ssa.FieldAddr:
+			if x.Referrers() == nil {
+				return nil, false
+			}
+			for _, r2 := range *x.Referrers() {
+				switch y := r2.(type) {
+				case *ssa.DebugRef:
+				case *ssa.UnOp:
+				case *ssa.Store:
+					if y.Addr != x {
+						if x.Field == field {
+							return nil, false
+						}
+						continue
+					}
+					if x.Field == field {
+						out = append(out, Leaf{Val: y.Val, Facts: fl.At(y)})
+					}
+				default:
+					if x.Field == field {
+						return nil, false
+					}
+				}
+			}
+		case *ssa.UnOp: // copy out
+		case *ssa.Store:
+			if x.Addr != a {
+				return nil, false
+			}
+			whole = true
+			ld, ok := x.Val.(*ssa.UnOp)
+			if !ok {
+				return nil, false
+			}
+			b, ok := ld.X.(*ssa.Alloc)
+			if !ok || b == a {
+				return nil, false
+			}
+			defs, ok := localFieldDefs(fl, b, field, depth+1)
+			if !ok {
+				return nil, false
+			}
+			out = append(out, defs...)
+		case *ssa.Call:
+			cal := x.Call.StaticCallee()
+			if cal == nil || cal.Blocks == nil || !inModule(funcPkgPath(cal)) || x.Call.IsInvoke() {
+				return nil, false
+			}
+			for i, arg := range x.Call.Args {
+				if arg != a {
+					continue
+				}
+				if i >= len(cal.Params) || cal.Params[i].Referrers() == nil {
+					return nil, false
+				}
+				for _, r2 := range *cal.Params[i].Referrers() {
+					switch y := r2.(type) {
+					case *ssa.DebugRef:
+					case *ssa.FieldAddr:
+						if y.Referrers() == nil {
+							return nil, false
+						}
+						for _, r3 := range *y.Referrers() {
+							switch z := r3.(type) {
+							case *ssa.DebugRef, *ssa.UnOp:
+							case *ssa.Store:
+								if z.Addr != y {
+									return nil, false
+								}
+								if y.Field != field {
+									continue
+								}
+								switch sv := z.Val.(type) {
+								case *ssa.Const:
+									out = append(out, Leaf{Val: sv, Facts: fl.At(x)})
+								case *ssa.Parameter:
+									j := -1
+									for k, prm := range cal.Params {
+										if prm == sv {
+											j = k
+										}
+									}
+									if j < 0 || j >= len(x.Call.Args) {
+										return nil, false
+									}
+									out = append(out, Leaf{Val: x.Call.Args[j], Facts: fl.At(x)})
+								default:
+									return nil, false
+								}
+							default:
+								return nil, false
+							}
+						}
+					default:
+						return nil, false
+					}
+				}
+			}
+		default:
+			return nil, false
+		}
+	}
+	_ = whole
+	// the zero value the variable starts with
+	ft := st.Field(field).Type()
+	if b, ok := ft.Underlying().(*types.Basic); ok {
+		switch {
+		case b.Info()&types.IsBoolean != 0:
+			out = append(out, Leaf{Val: ssa.NewConst(constant.MakeBool(false), ft), Facts: FactSet{}})
+		case b.Info()&types.IsInteger != 0:
+			out = append(out, Leaf{Val: ssa.NewConst(constant.MakeInt64(0), ft), Facts: FactSet{}})
+		case b.Info()&types.IsString != 0:
+			out = append(out, Leaf{Val: ssa.NewConst(constant.MakeString(""), ft), Facts: FactSet{}})
+		default:
+			return nil, false
+		}
+	} else {
+		switch ft.Underlying().(type) {
+		case *types.Pointer, *types.Interface, *types.Slice, *types.Map, *types.Chan, *types.Signature:
+			out = append(out, Leaf{Val: ssa.NewConst(nil, ft), Facts: FactSet{}})
+		default:
+			return nil, false
+		}
+	}
+	return out, true
+}
 
 // leafStops: functions whose results are to be taken as they are (the anchors a rule talks about),
 // not expanded into what they return. Set by the rule around its use of leaves().
@@ -1243,11 +1452,19 @@ func aliasHelperResults(fl *Flow, facts FactSet) FactSet {
 	repl := map[string]string{}
 	eachInstr(fl.Fn, func(in ssa.Instruction) {
 		ex, ok := in.(*ssa.Extract)
-		if !ok || ex.Index != 0 {
+		if !ok {
 			return
 		}
-		if _, isCall := ex.Tuple.(*ssa.Call); !isCall {
+		tcall, isCall := ex.Tuple.(*ssa.Call)
+		if !isCall {
 			return
+		}
+		if ex.Index != 0 {
+			// a later result, but not the verdict itself (`view, timeout, verified := s.verifyAndRecord(..)`)
+			tup, isTup := tcall.Type().(*types.Tuple)
+			if !isTup || ex.Index == tup.Len()-1 {
+				return
+			}
 		}
 		var keys []string
 		for _, lf := range helperResultLeaves(fl, ex, facts) {
@@ -1257,7 +1474,13 @@ func aliasHelperResults(fl *Flow, facts FactSet) FactSet {
 			if lf.Key == "" {
 				return
 			}
-			keys = append(keys, lf.Key)
+			dup := false
+			for _, k := range keys {
+				dup = dup || k == lf.Key
+			}
+			if !dup {
+				keys = append(keys, lf.Key)
+			}
 		}
 		if len(keys) == 1 {
 			repl[fl.K.Key(ex)] = keys[0]
